@@ -64,7 +64,7 @@ def build(rng, tier):
                                       "witness_of": f["id"] if f.get("status") == "open" else None}]})
     worlds.append({"domain_text": C5.HAND_DOMAIN, "source": "hand",
                    "cases": [{"text": t, "kind": "hand-" + k, "klass": kl, "nontrivial": True} for k, t, kl in HAND]})
-    n_worlds = 40 if tier == "quick" else 400
+    n_worlds = 70 if tier == "quick" else 400
     for _ in range(n_worlds):
         w = C5.gen_domain(rng)
         dtext = G.render(w.domain_tree("dom"), rng, noise=False)
@@ -85,6 +85,30 @@ def build(rng, tier):
         for c in w["cases"]:
             c.pop("expect", None)
     return worlds + fw, n_total, n_skipped
+
+
+KEYWORDS = ["and", "or", "not", "forall", "exists", "imply", "when", "=", "<=", ">=", "<", ">", "+", "-", "*", "/",
+            "assign", "increase", "decrease", "scale-up", "scale-down", "either"]
+OPERATORS = ["=", "!=", "<=", ">=", ">", "<", "+", "-", "/", "*", "increase", "decrease", "assign"]
+
+
+def hypotheses_report(results):
+    """the hypotheses of the theorems (dom_ok, num_ok), checked on the vocabularies and numeral tables of this run"""
+    rep = {"domains": 0, "domains_violating_dom_ok": [], "numeral_tables": 0, "numeral_tables_violating_num_ok": 0}
+    for res in results:
+        if "vocab" not in res:
+            continue
+        v = res["vocab"]
+        rep["domains"] += 1
+        cn = [c[0] for c in v["consts"]]
+        bad = [f[0] for f in v["funcs"] if f[0] in KEYWORDS]
+        if len(set(cn)) != len(cn) or bad:
+            rep["domains_violating_dom_ok"].append({"name": v["name"], "keyword_functions": bad})
+        for r in res["results"]:
+            rep["numeral_tables"] += 1
+            if any(k in OPERATORS for k in r.get("nums", {})):
+                rep["numeral_tables_violating_num_ok"] += 1
+    return rep
 
 
 def run(args):
@@ -158,6 +182,7 @@ def run(args):
                      "fixture_problems": sum(len(w["cases"]) for w in worlds if w["source"] == "fixture"),
                      "fixture_problems_shipped": n_total, "fixture_problems_left_to_thorough_tier": n_skipped}
     cov["repr_hypothesis_checked_values"] = sum(len(r.get("reprs", {})) for res in results if "results" in res for r in res["results"])
+    cov["theorem_hypotheses_checked"] = hypotheses_report(results)
     cov["exhaustive"] = False
     cov["rule"] = ("valid problems of C05's generator over pddlgen domains widened with binary/ternary functions (all object list styles, "
                    "constants, subtypes, repeated arguments, zero-arity atoms, all numeral forms, numeric goals), hand-written corner cases "
